@@ -205,6 +205,28 @@ def run(ctx, rep):
                                   "a status change outside the trade's pending scope can complete the trade "
                                   "half-way through a response")
     rep.floor("R1", "handler x report-status branches", n_branches, 10)
+    # a cancel the exchange REFUSED completes the order locally only when the refusal says the bet is gone
+    # (BET_TAKEN_OR_LAPSED); any other code leaves a bet that is - or will again be - live at the exchange, and an
+    # order completed locally is never revived by the order stream (its remainder drops out of the exposure figures)
+    fc = prog.own_method("BetfairExecution", "execute_cancel")
+    cfgc = ctx.cfg(fc)
+    n_fc = 0
+    for n, c in node_calls(cfgc, "execution_complete"):
+        gs = [(g.exprs[0], pol) for g, pol in cfgc.guards(n.id)]
+        if not any(utext(e).endswith(".status == 'FAILURE'") and pol for e, pol in gs):
+            continue
+        n_fc += 1
+        codes = None
+        for e, pol in gs:
+            if isinstance(e, ast.Compare) and utext(e.left).endswith(".error_code") and pol and len(e.ops) == 1:
+                if isinstance(e.ops[0], ast.Eq) and isinstance(e.comparators[0], ast.Constant):
+                    codes = {e.comparators[0].value}
+                elif isinstance(e.ops[0], ast.In) and isinstance(e.comparators[0], (ast.Tuple, ast.List, ast.Set)):
+                    codes = {x.value if isinstance(x, ast.Constant) else utext(x) for x in e.comparators[0].elts}
+        rep.check(codes is not None and codes <= {"BET_TAKEN_OR_LAPSED"}, "R1",
+                  key(fc, c, "a refused cancel completes the order only for BET_TAKEN_OR_LAPSED"), fc, c,
+                  "error codes that complete the order: %s" % (sorted(codes) if codes else "any"))
+    rep.floor("R1", "completion on a refused cancel", n_fc, 1)
     tx = prog.own_method("Trade", "__exit__")
     cfg = ctx.cfg(tx)
     live_calls = [n for n, c in node_calls(cfg, "_update_status") if utext(c.args[0]) == "TradeStatus.LIVE"]
@@ -361,6 +383,12 @@ def run(ctx, rep):
                 table[call_name(c)] = gs
     rep.check(table == {"execution_complete": [("complete", True)], "executable": [("complete", False)]}, "R4",
               key(ro, None, "reset_orders completes or re-opens every order of the package"), ro, None, str(table))
+    # `complete` is the caller's decision (a placement that was never acknowledged is finished, anything else
+    # re-opened): reset_orders does not overrule it
+    rebinds = [utext(st) for st in walk_nodes(ro.node.body, (ast.Assign, ast.AugAssign, ast.AnnAssign))
+               if "complete" in [utext(t) for t in (st.targets if isinstance(st, ast.Assign) else [st.target])]]
+    rep.check(not rebinds, "R4", key(ro, None, "reset_orders does not overrule the caller's `complete`"), ro, None,
+              "; ".join(rebinds))
     lps = [lp for lp in walk_nodes(ro.node.body, ast.For)]
     rep.check(len(lps) == 1 and utext(lps[0].iter) == "self" and not loop_body_exits_early(lps[0]), "R4",
               key(ro, None, "over all orders, no early exit"), ro)
